@@ -71,6 +71,19 @@ Definition C06_regrouped_cut_wf := CGV.Compose.Statements.C06_perm_cut_wf.
 Definition C06_coarse_step_returned := CGV.Compose.Statements.C06_coarse_step_returned.
 Definition C06_compose_flat_returned := CGV.Compose.Statements.C06_compose_flat_returned.
 Definition C12_sort_in_order := CGV.Compose.Statements.C12_sort_in_order.
+(** ANY number of levels: a hierarchy is a top cut plus the cuts below it, each the coarse cut of the one above
+    ([raw_chain]); by induction over the list of levels on the driver machine instantiated with the concrete
+    resolve step, resolve_n returns at every level, after level k the returned fine graph is the skeleton of the
+    level-k cut and (fragname := atomname) a base graph of the next, and the last graph equals the flat resolution's
+    skeleton through the explicit renumbering; with an all-atom last level the RETURNED molecules of the layered and
+    the flat description are isomorphic by the explicit map (atoms through the renumbering, i-th fresh hydrogen to
+    i-th fresh hydrogen), adjacency, orders and atom attributes preserved.  Hypothesis kept for the all-atom call:
+    both calls return with the identity aromaticity transcript.  Legacy matching, no `!`, no E/Z marks. *)
+Definition C06_compose_levels := CGV.Compose.Statements.C06_compose_levels.
+Definition C06_compose_levels_all_atom := CGV.Compose.Statements.C06_compose_levels_all_atom.
+Definition C06_compose_levels_resolve_iso := CGV.Compose.Statements.C06_compose_levels_resolve_iso.
+Definition C06_layered_flat_resolve_iso := CGV.Compose.Statements.C06_layered_flat_resolve_iso.
+Definition C06_coarse_step_any := CGV.Compose.Statements.C06_coarse_step_any.
 
 Print Assumptions C06_manual_is_prefix_of_iter.
 Print Assumptions C06_compose_flat_bonding_level.
@@ -78,6 +91,11 @@ Print Assumptions C06_layered_base_is_flat_base.
 Print Assumptions C06_coarse_step_returned.
 Print Assumptions C06_compose_flat_returned.
 Print Assumptions C12_sort_in_order.
+Print Assumptions C06_compose_levels.
+Print Assumptions C06_compose_levels_all_atom.
+Print Assumptions C06_compose_levels_resolve_iso.
+Print Assumptions C06_layered_flat_resolve_iso.
+Print Assumptions C06_coarse_step_any.
 Print Assumptions C06_all_is_last_of_iter.
 Print Assumptions C06_chain.
 Print Assumptions C06_past_end.
